@@ -144,13 +144,16 @@ def pruneReachability (owners : Array Owner) (strat : Array Strat) (nodes : Arra
     | .p1 => row.filter (fun t => (strat.getD s none).getD [] |>.contains t.act)
     | _ => row)
 
-/-- `ProbabilisticNode.prune_paths` -/
+/-- `ProbabilisticNode.prune_paths`: the successors with non-zero reach probability are kept; if
+any was removed, each surviving probability is divided by the sum of the surviving probabilities
+(`sum(...)`: starts from 0, adds left to right).  Dividing by a zero total raises
+`ZeroDivisionError`; with no survivor nothing is divided. -/
 def prunePathsProb (reach : Array α) (row : List (Tr α)) : Except Err (List (Tr α)) :=
-  let removed := row.foldl (fun acc t => if reach.getD t.tgt 0 == 0 then acc + t.p else acc) (0 : α)
   let kept := row.filter (fun t => !(reach.getD t.tgt 0 == 0))
   if kept.length ≠ row.length then
-    if !kept.isEmpty && ((1 : α) - removed == 0) then .error .zeroDiv
-    else .ok (kept.map (fun t => { t with p := t.p / (1 - removed) }))
+    let total := kept.foldl (fun acc t => acc + t.p) (0 : α)
+    if !kept.isEmpty && (total == 0) then .error .zeroDiv
+    else .ok (kept.map (fun t => { t with p := t.p / total }))
   else .ok row
 
 /-- `PlayerOne.prune_paths` -/
